@@ -97,6 +97,8 @@ enum R {
     ZHVecF64, // (&[u8]) -> heapless::Vec<f64, 4> (LE octets, bits)
     ZHVecStr, // (&str, &str) -> heapless::Vec<heapless::String<32>, 4>
     ZUnitQ,   // query returning ()
+    ZHVecBlk, // (&[u8], &[u8], &[u8]) -> heapless::Vec<Arbitrary, 4>
+    ZTupSlice, // (u8, &[u8]) -> (usize, &[i16])
     Big,      // (u8) -> u32, keeps a 6000 byte array alive across its suspension point
 }
 
@@ -280,6 +282,8 @@ fn tree_hand() -> Vec<Decl> {
         d("TEN", &[U8, U8, U8, U8, U8, U8, U8, U8, U8, U8], R::Unit, true),
         d("SYSTem:TEN?", &[I16, I16, I16, I16, I16, I16, I16, I16, I16, Bool], R::Hid, true),
         d("SYSTem:BIG?", &[U8], R::Big, true),
+        // a command (not a query) whose handler nevertheless returns data
+        d("SYSTem:DATA", &[], R::Hid, true),
         d("EXTRAordinarilyLONG:FOO", &[], R::Unit, true),
         d("EXTRAordinarilyLONG:BAZ?", &[], R::Hid, true),
         d("SYSTem:LONGmnemonic17:BAR", &[], R::Unit, false),
@@ -434,6 +438,8 @@ fn zoo() -> Vec<Decl> {
         d("ZOO:HVU?", &[Blk], R::ZHVecU32, true),
         d("ZOO:HVF?", &[Blk], R::ZHVecF64, true),
         d("ZOO:HVS?", &[Str, Str], R::ZHVecStr, true),
+        d("ZOO:HVB?", &[Blk, Blk, Blk], R::ZHVecBlk, true),
+        d("ZOO:TSL?", &[U8, Blk], R::ZTupSlice, true),
         d("ZOO:NONE?", &[], R::ZUnitQ, true),
         d("ZOO:NONE", &[], R::Unit, true),
         d("ZOO:CMD", &[U8], R::Unit, true),
@@ -508,6 +514,8 @@ fn ret_type(r: R) -> &'static str {
         R::ZHVecU32 => "heapless::Vec<u32, 8>",
         R::ZHVecF64 => "heapless::Vec<f64, 4>",
         R::ZHVecStr => "heapless::Vec<heapless::String<32>, 4>",
+        R::ZHVecBlk => "heapless::Vec<Arbitrary<'_>, 4>",
+        R::ZTupSlice => "(usize, &[i16])",
     }
 }
 
@@ -517,6 +525,8 @@ fn ret_type(r: R) -> &'static str {
 fn ret_body(r: R, hid: usize) -> String {
     match r {
         R::Unit | R::ZUnitQ => "Ok(())".into(),
+        R::ZHVecBlk => "{ self.bbuf.clear(); self.bbuf.extend_from_slice(a0); let l0 = self.bbuf.len(); self.bbuf.extend_from_slice(a1); let l1 = self.bbuf.len(); self.bbuf.extend_from_slice(a2); let mut v = heapless::Vec::<Arbitrary<'_>, 4>::new(); let _ = v.push(Arbitrary(&self.bbuf[..l0])); let _ = v.push(Arbitrary(&self.bbuf[l0..l1])); let _ = v.push(Arbitrary(&self.bbuf[l1..])); Ok(v) }".into(),
+        R::ZTupSlice => "{ self.ibuf.clear(); for c in a1.chunks_exact(2) { self.ibuf.push(i16::from_le_bytes([c[0], c[1]])); } Ok((a0 as usize, &self.ibuf[..])) }".into(),
         R::Big => "Ok(big.iter().map(|x| *x as u32).sum::<u32>())".into(),
         R::Hid => format!("Ok({hid}u32)"),
         R::EchoStr | R::ZStr => "{ self.sbuf.clear(); self.sbuf.push_str(a0); Ok(self.sbuf.as_str()) }".into(),
@@ -574,7 +584,15 @@ fn emit_iface(out: &mut String, spec: &mut String, idx: usize, it: &Iface, ns: &
         writeln!(out, "    #[scpi::interface]").unwrap();
     }
     writeln!(out, "    impl{generics} {ty} {{").unwrap();
+    // items that are not SCPI handlers: the macro must leave them alone and must not let
+    // them influence the numbering of the handlers
+    writeln!(out, "        pub const HELPER_CONST: u32 = 7;").unwrap();
+    writeln!(out, "        pub fn helper_a(&self) -> u32 {{ Self::HELPER_CONST }}").unwrap();
+    writeln!(out, "        pub fn helper_b(&self, x: u32) -> u32 {{ x.wrapping_add(self.helper_a()) }}").unwrap();
     for (hid, dc) in it.decls.iter().enumerate() {
+        if hid == 2 {
+            writeln!(out, "        pub fn helper_c(&self) -> bool {{ self.helper_b(1) > 0 }}").unwrap();
+        }
         let mut sig = String::new();
         let mut log = String::new();
         for (i, p) in dc.params.iter().enumerate() {
